@@ -358,7 +358,7 @@ def tag_values(kind, i):
 
 
 PADS = {"default": None, "zero": (lambda info: 0), "large": (lambda info: 50000), "odd": (lambda info: 333),
-        "keep": (lambda info: max(info.padding, 0))}
+        "keep": (lambda info: max(info.padding, 0)), "four": (lambda info: 4)}
 
 TAG_KINDS = ["empty", "small", "5k", "200k", "cover"]
 
@@ -454,12 +454,12 @@ def media_reference(data, top):
     return ref
 
 
-def stale_key(e):
+def stale_key(e, quirks=()):
     if e["kind"] == "tfhd":
         if e["moof_rank"] is not None and e["moof_rank"] >= 1:
             return "mp4:tfhd-stale:second-moof"
-        return "mp4:tfhd-stale"
-    return "mp4:%s-stale" % e["kind"]
+    wide = "".join(":" + q for q in quirks if q.startswith("wide-"))
+    return "mp4:%s-stale%s" % (e["kind"], wide)
 
 
 def check_file(ctx, ref, expected, after, case, quirks):
@@ -484,7 +484,7 @@ def check_file(ctx, ref, expected, after, case, quirks):
             continue
         now = after[e1["value"]:e1["value"] + MEDIA_WINDOW]
         if now != media:
-            k = stale_key(e1)
+            k = stale_key(e1, quirks)
             if k not in seen:
                 seen.add(k)
                 ctx.violation(k, "%s entry %d of %s: was %d -> is %d, which no longer addresses the same media bytes "
@@ -493,7 +493,7 @@ def check_file(ctx, ref, expected, after, case, quirks):
     if expected is not None and len(expected) == len(ents):
         for (kind, t, c, m), e1 in zip(expected, ents):
             if e1["value"] is not None and after[e1["value"]:e1["value"] + len(m)] != m:
-                k = stale_key(e1) if stale_key(e1) in seen else stale_key(e1) + ":marker"
+                k = stale_key(e1, quirks) if stale_key(e1, quirks) in seen else stale_key(e1, quirks) + ":marker"
                 if k not in seen:
                     seen.add(k)
                     ctx.violation(k, "%s entry (%d,%d) no longer points at its marker chunk" % (kind, t, c), case)
@@ -502,6 +502,26 @@ def check_file(ctx, ref, expected, after, case, quirks):
 
 def mdat_payloads(data, top):
     return [data[n.off + n.hl:n.off + n.size] for n in top if n.name == b"mdat"]
+
+
+def pyerr_name(e):
+    """the PyErr name the model uses for a Python exception"""
+    from mutagen import MutagenError
+    if isinstance(e, MutagenError):
+        return "mutagen"
+    return {"error": "struct", "KeyError": "key", "ValueError": "value", "IndexError": "index",
+            "OverflowError": "overflow"}.get(type(e).__name__, type(e).__name__)
+
+
+def model_fits(jobs, before, after):
+    """small files always go to the model, large ones (200 KB covers) a few per run"""
+    n = len(before) + len(after)
+    if n <= jobs["limit"]:
+        return True
+    if jobs["big_left"] > 0 and n <= 1500000:
+        jobs["big_left"] -= 1
+        return True
+    return False
 
 
 def model_request(before, after):
@@ -543,6 +563,9 @@ def run_history(ctx, name, data, expected, ops, lay_desc, quirks, model_jobs, sa
             if after != before:
                 # the save gave up half way: what is on disk now?
                 good = check_file(ctx, ref, expected, after, case, quirks + ["after-exception"])
+                if model_jobs is not None and model_fits(model_jobs, before, after):
+                    model_jobs["lines"].append(model_request(before, after))
+                    model_jobs["expect"].append((after, case, "err:" + pyerr_name(want)))
                 ctx.violation("mp4:save-raises-midway:%s%s" % (type(want).__name__, (":" + qual) if qual else ""),
                               "%s raised %s after modifying the file (%s)" % (op[0], type(want).__name__, str(want)[:80]), case)
             elif not isinstance(want, MutagenError):
@@ -558,17 +581,18 @@ def run_history(ctx, name, data, expected, ops, lay_desc, quirks, model_jobs, sa
             ctx.violation("mp4:media-bytes-changed", "the payload of an mdat atom changed", case)
         # (iii)
         k2, o2 = timed(lambda: sess.MP4(io.BytesIO(after)), 20)
+        rkey = "mp4:reload" + ("" if good else ":malformed" + "".join(":" + q for q in quirks))
         if k2 != "ok":
-            ctx.violation("mp4:reload" + ("" if good else ":malformed"), "file no longer loads: %r" % (o2,), case)
+            ctx.violation(rkey, "file no longer loads: %r" % (o2,), case)
         else:
             got = snapshot(o2.tags)
             if got != want:
-                ctx.violation("mp4:reload" + ("" if good else ":malformed"),
+                ctx.violation(rkey,
                               "tags read back differ from the tags saved: keys %r vs %r" % (sorted(got), sorted(want)), case)
         # model
-        if model_jobs is not None and after != before and (len(before) + len(after) <= model_jobs["limit"]):
+        if model_jobs is not None and after != before and model_fits(model_jobs, before, after):
             model_jobs["lines"].append(model_request(before, after))
-            model_jobs["expect"].append((after, case))
+            model_jobs["expect"].append((after, case, "ok"))
         if not good:
             return      # later steps start from a broken file: one report is enough
 
@@ -606,7 +630,7 @@ def layouts(ctx):
     add(ilst_first=True, free=("meta-far",))
     add(ilst_first=True, free=("after-ilst",))
     add(ilst_first=True)
-    n_rand = ctx.budget(24, 400)
+    n_rand = ctx.budget(60, 600)
     for _ in range(n_rand):
         udta = rng.choice(["none", "before", "after", "after"])
         meta = udta != "none" and rng.random() < 0.8
@@ -624,6 +648,19 @@ def layouts(ctx):
         if l.key() not in seen:
             seen.add(l.key()); out.append(l)
     return out
+
+
+def targeted():
+    """layouts x histories that show each known defect deterministically (run first, on every tier)"""
+    return [
+        (Layout(nmoof=2), [("save", "5k", "default", False)]),
+        (Layout(moov_first=False, zero_last=True), [("save", "5k", "default", False)]),      # grow: size field 0 + delta
+        (Layout(moov_first=False, zero_last=True), [("save", "empty", "zero", False)]),      # shrink: struct.error half way
+        (Layout(ilst_first=True, free=("meta-far",)), [("save", "small", "default", False)]),
+        (Layout(wide=("table",)), [("save", "5k", "default", False)]),
+        (Layout(wide=("table",), traks=["co64"]), [("save", "5k", "default", False)]),
+        (Layout(wide=("tfhd",), nmoof=1), [("save", "5k", "default", False)]),
+    ]
 
 
 def quirks_of(lay, data):
@@ -661,19 +698,19 @@ def flush_model(ctx, jobs):
     except RuntimeError as e:
         ctx.notes.append("driver: %s" % str(e)[:200])
         return
-    for line, (after, case) in zip(answers, jobs["expect"]):
+    for line, (after, case, want_st) in zip(answers, jobs["expect"]):
         if line.startswith("bad-op"):
             ctx.hist["model:not-wired"] += 1
             continue
         st, f = parse_fields(line)
         ctx.traces_validated += 1
         ctx.hist["model:" + st] += 1
-        if st != "ok" or unhx(f.get("data", "-")) != after:
-            m = unhx(f.get("data", "-")) if st == "ok" else b""
+        if st != want_st or unhx(f.get("data", "-")) != after:
+            m = unhx(f.get("data", "-"))
             i = next((k for k in range(min(len(m), len(after))) if m[k] != after[k]), min(len(m), len(after)))
             ctx.disagree("mp4 save", {k: case[k] for k in ("layout", "file", "history")},
                          model="%s off=%s old=%s len=%d first-difference-at=%d" % (st, f.get("off"), f.get("old"), len(m), i),
-                         impl="len=%d" % len(after))
+                         impl="%s len=%d" % (want_st, len(after)))
     jobs["lines"] = []; jobs["expect"] = []
 
 
@@ -700,12 +737,94 @@ def check_walk_model(ctx, files):
             ctx.disagree("mp4 walk", {"file": name}, model=line[:300], impl="offsets=" + mine[:200])
 
 
+# the witnesses of Props/C10.lean (`moof_counterexample`, `size0_moov_counterexample`, `ilst_first_counterexample`):
+# name -> (Lean definition, bytes, quirk labels).  Each is saved once through the real code with no tags and padding=4,
+# which writes `twoMoofNew` (empty ilst + free with 4 bytes) over the region.
+WITNESS_NEW = bytes.fromhex("00000008696c73740000000c6672656500000000")
+WITNESSES = [
+    ("twoMoof", bytes.fromhex(
+        "000000246d6f6f760000001c75647461000000146d6574610000000000000008696c7374"
+        "000000286d6f6f6600000020747261660000001874666864000000010000000100000000000000540000000c6d64617441414141"
+        "000000286d6f6f6600000020747261660000001874666864000000010000000100000000000000880000000c6d64617442424242"), []),
+    ("size0Moov", bytes.fromhex(
+        "0000000c6d64617441414141000000006d6f6f760000001c75647461000000146d6574610000000000000008696c7374"), ["size0-moov"]),
+    ("ilstFirst", bytes.fromhex(
+        "0000003a6d6f6f7600000032756474610000002a6d6574610000000000000008696c73740000000a78797a2058590000000c6672656500000000"
+        "0000000c6d64617441414141"), ["ilst-first-free-last"]),
+]
+WITNESS_OPS = [("save", "empty", "four", False)]
+
+
+def lean_bytes(src, name):
+    import re
+    m = re.search(r"def %s : Bytes :=\s*\[(.*?)\]" % name, src, re.S)
+    if not m:
+        return None
+    return bytes(int(x, 16) for x in re.findall(r"0x([0-9a-fA-F]{2})", m.group(1)))
+
+
+def check_witnesses(ctx, jobs):
+    """the concrete files of the counterexample theorems, on the real code (and the same bytes in the Lean file)"""
+    path = os.path.join(ctx.verif, "lean", "MutagenModel", "Props", "C10.lean")
+    src = open(path).read() if os.path.exists(path) else ""
+    for name, data, quirks in WITNESSES:
+        if src:
+            lb = lean_bytes(src, name)
+            if lb != data:
+                ctx.disagree("witness bytes", {"witness": name}, model=hx(lb or b"")[:120], impl=hx(data)[:120])
+        run_history(ctx, name, data, None, WITNESS_OPS, {"witness": name}, list(quirks), jobs)
+        ctx.hist["witness:" + name] += 1
+        # the model's own choice of region, given only the new bytes
+        if jobs is not None:
+            try:
+                line = ctx.driver.ask(["mp4 op=save data=%s new=%s" % (hx(data), hx(WITNESS_NEW))])[0]
+            except RuntimeError as e:
+                ctx.notes.append("driver: %s" % str(e)[:200]); continue
+            if line.startswith("bad-op"):
+                ctx.hist["model:not-wired"] += 1
+                continue
+            sess = Session(data)
+            sess.apply(WITNESS_OPS[0])
+            st, f = parse_fields(line)
+            ctx.traces_validated += 1
+            if st != "ok" or unhx(f.get("data", "-")) != sess.data:
+                ctx.disagree("witness save", {"witness": name}, model=line[:300], impl=hx(sess.data)[:300])
+    if src and lean_bytes(src, "twoMoofNew") != WITNESS_NEW:
+        ctx.disagree("witness bytes", {"witness": "twoMoofNew"}, model=hx(lean_bytes(src, "twoMoofNew") or b""), impl=hx(WITNESS_NEW))
+
+
+def check_consts(ctx):
+    """`_CONTAINERS` / `_SKIP_SIZE` of the imported module against the literal copies in the model"""
+    from mutagen.mp4 import _atom
+    impl = "ok containers=%s skip=%s" % (",".join(n.hex() for n in _atom._CONTAINERS),
+                                          ",".join("%s:%d" % (k.hex(), v) for k, v in sorted(_atom._SKIP_SIZE.items())))
+    ctx.case(key="consts", nontrivial=True)
+    if not ctx.model_ok():
+        return
+    try:
+        line = ctx.driver.ask(["mp4 op=consts"])[0]
+    except RuntimeError as e:
+        ctx.notes.append("driver: %s" % str(e)[:200]); return
+    if line.startswith("bad-op"):
+        ctx.hist["model:not-wired"] += 1
+        ctx.notes.append("the driver does not know `mp4` yet: model comparison skipped")
+        return
+    ctx.traces_validated += 1
+    if line != impl:
+        ctx.disagree("mp4 consts", {"what": "_CONTAINERS/_SKIP_SIZE"}, model=line, impl=impl)
+
+
 def run(ctx, thorough_histories=None):
     ctx.rule = RULE
     rng = ctx.rng
-    jobs = {"lines": [], "expect": [], "limit": ctx.budget(150000, 1200000)} if ctx.model_ok() else None
+    jobs = {"lines": [], "expect": [], "limit": ctx.budget(60000, 200000), "big_left": ctx.budget(4, 40)} if ctx.model_ok() else None
+    check_consts(ctx)
+    check_witnesses(ctx, jobs)
     lays = layouts(ctx)
     files = []
+    for ti, (lay, ops) in enumerate(targeted()):
+        data, expected = build(lay)
+        run_history(ctx, "target%d" % ti, data, expected, ops, lay.describe(), quirks_of(lay, data), jobs)
     for li, lay in enumerate(lays):
         data, expected = build(lay)
         files.append(("synth%d" % li, data))
@@ -714,8 +833,8 @@ def run(ctx, thorough_histories=None):
         hists = []
         if li < 12 or li % 5 == 0:
             hists.append(FIXED_HISTORIES[li % len(FIXED_HISTORIES)])
-        for _ in range(ctx.budget(1, 4)):
-            hists.append(gen_history(rng, ctx.budget(4, 10), big_ok=(rng.random() < ctx.budget(0.15, 0.5))))
+        for _ in range(ctx.budget(2, 5)):
+            hists.append(gen_history(rng, ctx.budget(5, 10), big_ok=(rng.random() < ctx.budget(0.15, 0.5))))
         for hi, ops in enumerate(hists):
             run_history(ctx, "synth%d" % li, data, expected, ops, desc, q, jobs, sample=(li in (5, 17) and hi == 0))
         ctx.hist["layout:moov-%s" % ("first" if lay.moov_first else "last")] += 1
@@ -744,6 +863,12 @@ def replay(ctx, payload):
     c = payload["case"]
     ctx.rule = RULE
     lay = None
+    if "witness" in c.get("layout", {}):
+        name, data, quirks = next(w for w in WITNESSES if w[0] == c["layout"]["witness"])
+        ops = [tuple((None if x == "None" else True if x == "True" else False if x == "False" else x) for x in op) for op in c["history"]]
+        ctx.case(key="replay", sample=c)
+        run_history(ctx, name, data, None, ops, c["layout"], list(quirks), None)
+        return
     if "sample" in c.get("layout", {}):
         with open(os.path.join(ctx.repo, "tests", "data", c["layout"]["sample"]), "rb") as f:
             data = f.read()
